@@ -247,25 +247,31 @@ func expected(sp credgen.Spec, v credgen.View, o credgen.Opts) expect {
 			return bad("no VerifiableCredential type")
 		}
 	}
-	// which attribute governs this type
-	ser, shape := "", "map"
-	if ty == s.TypeIRI {
-		shape = s.CtxShape
+	// which attribute governs this type: among the terms of the schema's context that carry a
+	// scoped context and are called ty or identified by ty, the one whose name sorts first
+	type cand struct{ name, shape, ser string }
+	var cands []cand
+	if s.TypeName == ty || s.TypeIRI == ty {
+		c := cand{name: s.TypeName, shape: s.CtxShape}
 		if s.Ser != nil && s.SerRaw == nil {
-			ser = *s.Ser
+			c.ser = *s.Ser
 		}
-	} else {
-		found := false
-		for _, e := range s.Extra {
-			if e.IRI == ty && e.Shape != "none" && e.Shape != "string" {
-				found = true
-				shape = e.Shape
-				ser = e.SerAttr
+		cands = append(cands, c)
+	}
+	for _, e := range s.Extra {
+		if (e.Name == ty || e.IRI == ty) && (e.Shape == "map" || e.Shape == "array") {
+			cands = append(cands, cand{name: e.Name, shape: e.Shape, ser: e.SerAttr})
+		}
+	}
+	ser, shape := "", "map"
+	if len(cands) > 0 {
+		best := cands[0]
+		for _, c := range cands[1:] {
+			if c.name < best.name {
+				best = c
 			}
 		}
-		if !found {
-			shape = "map"
-		}
+		ser, shape = best.ser, best.shape
 	}
 	if shape == "array" {
 		return bad("scoped context of the type is not a map")
@@ -647,6 +653,9 @@ func (g *gen) buildPool() pool {
 	add(credgen.Spec{Schema: ssAll, Subject: did, Expiration: i64(4102444800)})
 	add(credgen.Spec{Schema: ssAll, Subject: did, NoSubjectType: true})
 	add(credgen.Spec{Schema: ssAll, Omit: []string{"name"}})
+	// a type given as an absolute IRI that no context defines: no attribute is found, the claim is a merklized one
+	add(credgen.Spec{Schema: ssAll, Subject: did, NoSubjectType: true, TopTypes: []string{"VerifiableCredential", "urn:other:type"}})
+	add(credgen.Spec{Schema: ssAll, Subject: did, NoSubjectType: true, TopTypes: []string{"VerifiableCredential", "NoSuchType"}})
 	add(credgen.Spec{Schema: ssAll, Subject: did, Values: [5]string{"1e3", "0", "x", "false", "2000-01-01T00:00:00+05:30"}})
 	dup := credgen.SerAttr("count", "count", "price", "count")
 	add(credgen.Spec{Schema: e.NewSchema(&dup), Subject: did})
@@ -679,6 +688,17 @@ func (g *gen) buildPool() pool {
 	add(credgen.Spec{Schema: sx, NoSubjectType: true, TopTypes: []string{"VerifiableCredential", "AaaOther"}})
 	add(credgen.Spec{Schema: sx, NoSubjectType: true, TopTypes: []string{"AaaArray", "VerifiableCredential"}})
 	add(credgen.Spec{Schema: sx, NoSubjectType: true, TopTypes: []string{"VerifiableCredential", "Plain"}})
+	// two terms identified by the same IRI: the lookup by IRI meets both, the one whose name sorts first wins
+	sal := e.NewSchema(str(credgen.SerAttr("price", "", "", "")))
+	sal.Extra = []credgen.ExtraType{{Name: "AaaAlias", IRI: sal.TypeIRI, Shape: "map", SerAttr: credgen.SerAttr("", "", "", "name")},
+		{Name: "ZzzAlias", IRI: sal.TypeIRI, Shape: "array"}}
+	_ = e.Register(sal)
+	add(credgen.Spec{Schema: sal, Subject: did})
+	sal2 := e.NewSchema(str(credgen.SerAttr("count", "", "", "")))
+	sal2.Extra = []credgen.ExtraType{{Name: "ZzzAlias2", IRI: sal2.TypeIRI, Shape: "map", SerAttr: credgen.SerAttr("", "name", "", "")},
+		{Name: "AaaAlias2", IRI: sal2.TypeIRI, Shape: "none"}}
+	_ = e.Register(sal2)
+	add(credgen.Spec{Schema: sal2})
 	// a context that does not load
 	gone := &credgen.Schema{URL: "https://schemas.example/gen/missing.json-ld", TypeName: "Gone", TypeIRI: "urn:gone", CtxShape: "map"}
 	gone.BuildDoc()
